@@ -274,6 +274,9 @@ func (n *c08Node) submitLocked(tx *types.Transaction) error {
 	if s.Reached != nil {
 		n.problem("two transactions submitted for one request")
 	}
+	if tx.ChainId().Cmp(n.chainID) != 0 {
+		n.problem("transaction with chain id %v submitted by a client of chain %v", tx.ChainId(), n.chainID)
+	}
 	v := tx.Nonce()
 	s.Reached = &v
 	s.hash = tx.Hash()
